@@ -22,6 +22,8 @@ from ml_metrics._src import types
 from ml_metrics._src.utils import iter_utils
 
 _T = TypeVar('_T')
+# Marks a read that failed and was skipped: it still consumed a position.
+_SKIPPED = object()
 
 
 @dc.dataclass(frozen=True, slots=True)
@@ -116,8 +118,9 @@ class SequenceIterator(types.Recoverable, Iterator[_T]):
 
   def __init__(self, config: SequenceDataSource):
     self._index = config.start
-    iter_ = iter_utils.iter_ignore_error if config.ignore_error else iter
-    self._it = iter_(config.data[config.start : config.end])
+    self._it = iter(config.data[config.start : config.end])
+    if config.ignore_error:
+      self._it = iter_utils.iter_ignore_error(self._it, error_return=_SKIPPED)
     self.config = config
 
   def from_state(self, shard_state: ShardConfig) -> Self:
@@ -132,9 +135,13 @@ class SequenceIterator(types.Recoverable, Iterator[_T]):
 
   def __next__(self) -> _T:
     """Iterates the data source given a shard index."""
-    result = next(self._it)
-    self._index += 1
-    return result
+    while True:
+      result = next(self._it)
+      # A skipped read advances the position as well, so that the recorded
+      # state points behind it.
+      self._index += 1
+      if result is not _SKIPPED:
+        return result
 
   def __iter__(self) -> Self:
     """Iterates the data source given a shard index."""
